@@ -547,11 +547,15 @@ func (g *PipeGen) join(s Schema, joinDepth int) (*Op, Schema) {
 				op.Conds = append(op.Conds, Bin("==", r, l))
 			case 1:
 				cmp := []string{"<", "<=", ">", ">=", "!=", "=="}[g.Rng.Intn(6)]
+				c := Bin(cmp, l, r)
 				if g.Rng.Intn(2) == 0 {
-					op.Conds = append(op.Conds, Bin(cmp, l, r))
-				} else {
-					op.Conds = append(op.Conds, Bin(cmp, r, l))
+					c = Bin(cmp, r, l)
 				}
+				if cmp != "==" && g.Rng.Intn(3) == 0 {
+					// below not(): a comparison that is FALSE on NULL operands becomes TRUE
+					c = Call("not", c)
+				}
+				op.Conds = append(op.Conds, c)
 			case 2:
 				op.Conds = append(op.Conds, Bin("==", l, Bin("+", r, Num("1"))))
 			case 3:
